@@ -74,12 +74,20 @@ func (t *tState) pairs(idx int) []pair {
 		case idxID:
 			out = append(out, pair{pk, pk, it})
 		case idxU:
+			seen := map[string]bool{}
 			for _, x := range m.o.Us {
-				out = append(out, pair{string(uKey(x, m.o.ID)), pk, it})
+				if !seen[string(x)] {
+					seen[string(x)] = true
+					out = append(out, pair{string(uKey(x, m.o.ID)), pk, it})
+				}
 			}
 		case idxTags:
+			seen := map[string]bool{}
 			for _, x := range m.o.Tags {
-				out = append(out, pair{string(x), pk, it})
+				if !seen[string(x)] {
+					seen[string(x)] = true
+					out = append(out, pair{string(x), pk, it})
+				}
 			}
 		}
 	}
